@@ -6,7 +6,7 @@ import os
 import re
 import subprocess
 
-from vlib import build, gen, mutate, pipeline, runner
+from vlib import build, cbor, cdns_schema, gen, mutate, pipeline, runner
 from vlib.findings import Violation
 from .common import ExportRun
 
@@ -41,6 +41,28 @@ def corpus(seed, n=24):
     return files, er.violations
 
 
+def resource_inputs(data):
+    """valid files that are cheap for a linear implementation and expensive for one that is quadratic in the number of string chunks /
+    in the number of table entries sharing a long prefix"""
+    out = []
+    doc = cdns_schema.parse(data)
+    pre = doc.root.value[1]
+    n = 500000
+    pre.value.append((cbor.Node(cbor.UINT, 200), cbor.Node(cbor.TSTR, b'a' * n, 0, True, [(None, b'a')] * n)))
+    pre.width = None
+    out.append(('many_chunks', cbor.encode(doc.root)))
+    doc = cdns_schema.parse(data)
+    m = 100000
+    names = cbor.Node(cbor.ARRAY, [cbor.Node(cbor.BSTR, b'p' * 64 + i.to_bytes(4, 'big') + b'q' * 28) for i in range(m)])
+    blk = cbor.Node(cbor.MAP, [(cbor.Node(cbor.UINT, 0), cbor.Node(cbor.MAP, [])),
+                               (cbor.Node(cbor.UINT, 2), cbor.Node(cbor.MAP, [(cbor.Node(cbor.UINT, 2), names)])),
+                               (cbor.Node(cbor.UINT, 3), cbor.Node(cbor.ARRAY, [cbor.Node(cbor.MAP, [(cbor.Node(cbor.UINT, 7), cbor.Node(cbor.UINT, m - 1))])]))])
+    doc.blocks_node.value.insert(0, blk)
+    doc.blocks_node.width = None
+    out.append(('long_common_prefix_table', cbor.encode(doc.root)))
+    return out
+
+
 def triage_key(c):
     return '%s:%s' % (PROP, c.key_tail())
 
@@ -70,6 +92,15 @@ def run(tier, seed):
                 f.write(data)
             inputs.append((k, p, len(data)))
             jobs.append({'id': 'm%05d' % i, 'path': p, 'stream': 'ifstream' if i % 2 else 'sstream', 'dump': 'none', 'render': True, 'tables': True})
+        # resource envelopes: valid files whose cost must stay proportional to their size
+        for rk, data in resource_inputs(base[0]):
+            i = len(inputs)
+            p = os.path.join(wd, 'in_%05d.bin' % i)
+            with open(p, 'wb') as f:
+                f.write(data)
+            kinds_seen[rk] = kinds_seen.get(rk, 0) + 1
+            inputs.append((rk, p, len(data)))
+            jobs.append({'id': 'm%05d' % i, 'path': p, 'stream': 'ifstream', 'dump': 'none', 'render': False, 'tables': False})
         res, crashes, wd2 = runner.run_cases('asan', 'read', jobs, 'c03r', timeout=600)
         runner.cleanup(wd2)
         for c in crashes:
@@ -93,8 +124,8 @@ def run(tier, seed):
                 vs.append(Violation(PROP, '%s:hook:decoder-window' % PROP, 'decoder position left its buffer window on a hostile input (%s)' % k, {'mutation': k, 'input_hex': open(p, 'rb').read()[:3000].hex()}))
             if r.get('alloc_max', 0) > 2048 * ln + (1 << 20):
                 vs.append(Violation(PROP, '%s:allocation-sized-by-input-field' % PROP, 'a single allocation of %d bytes for a %d-byte input (%s)' % (r['alloc_max'], ln, k), {'mutation': k, 'input_hex': open(p, 'rb').read()[:3000].hex()}))
-            if r.get('cpu', 0) > 5.0 and ln <= (1 << 20):
-                vs.append(Violation(PROP, '%s:cpu-time' % PROP, '%.1f s CPU for a %d-byte input (%s)' % (r['cpu'], ln, k), {'mutation': k, 'input_hex': open(p, 'rb').read()[:3000].hex()}))
+            if r.get('cpu', 0) > 5.0 * max(1.0, ln / float(1 << 20)):
+                vs.append(Violation(PROP, '%s:cpu-time:%s' % (PROP, k if k in ('many_chunks', 'long_common_prefix_table') else 'mutated'), '%.1f s CPU for a %d-byte input (%s); the envelope is 5 s per MiB (min. 5 s)' % (r['cpu'], ln, k), {'mutation': k, 'input_hex': open(p, 'rb').read()[:3000].hex()}))
         # raw decoder operations over the same bytes
         dcases = []
         for i in range(0, len(inputs), 3):
@@ -131,6 +162,12 @@ def run(tier, seed):
                 args = ['-o', outp, p, p2] if r.random() < 0.7 else ['-o', outp, p2, p, p]
             elif tool == 'cdns-itemcount':
                 args = [x for x in ['-b', '-p'] if r.random() < 0.5] + [p]
+            elif tool == 'cdns-preamble':
+                args = (['-b'] if r.random() < 0.6 else []) + [p]
+            elif tool == 'cdns-blocks':
+                args = (['-n', str(r.choice([1, 2, 3, 10]))] if r.random() < 0.5 else []) + [p]
+            elif tool == 'cdns-items':
+                args = [x for x in ['-q', '-a', '-m'] if r.random() < 0.4] + (['-n', str(r.choice([1, 2, 3, 10]))] if r.random() < 0.4 else []) + [p]
             else:
                 args = [p]
             rc, out, err, to = runner.run_limited(os.path.join(libd, tool), args, timeout=600, cpu=30, fsize=32 << 20)
@@ -192,7 +229,7 @@ def run(tier, seed):
         cov = dict(evaluations=len(inputs) + len(dcases) + tool_runs + mem_runs + fuzz_execs, distinct_nontrivial=len({(k, ln) for k, p, ln in inputs}),
                    rule='structure-aware mutations of valid exporter outputs (%d mutation kinds: length fields up to 2^64-1, boundary integers, wrong majors, nesting to 200000, truncation, malformed names/addresses, ...) '
                         'through CdnsReader + every accessor and renderer, raw decoder operations, the five CLI tools (ASan+UBSan build) and valgrind memcheck (plain build); '
-                        'distinct = distinct (mutation kind, input length); oracle: no sanitizer report / signal / exception that is not derived from std::exception (it would terminate the driver), single allocation <= 2048*len+1MiB, CPU <= 5 s' % len(mutate.KINDS),
+                        'distinct = distinct (mutation kind, input length); oracle: no sanitizer report / signal / exception that is not derived from std::exception (it would terminate the driver), single allocation <= 2048*len+1MiB, CPU <= 5 s per MiB of input (min. 5 s), incl. two valid files that are expensive only for quadratic code (500000 one-byte string chunks; 100000 table entries sharing a 64-byte prefix)' % len(mutate.KINDS),
                    samples=[{'mutation': inputs[i][0], 'len': inputs[i][2], 'head_hex': open(inputs[i][1], 'rb').read()[:48].hex()} for i in (0, 1, 2)], observed=obs)
         return dict(violations=vs, coverage=cov)
     finally:
